@@ -58,4 +58,5 @@ SHARED = {
     "C32": [("C27", "R5.", "check-file reads through the handle: the hash covers the requested range only if the handle's tracked offset is the file's real one")],
     "C34": [("C39", "R1.pair-agreement:get_text", "the path that is normalised is the text the client sent: a lenient decode lets bytes survive as part of a name")],
     "C45": [("C36", "R3.ecdsa-coordinates-encoded-alike", "the key blob named in the request is the blob the agent listed, both coordinates at full width")],
+    "C41": [("C02", "R3.comparator", "a hashed host name matches only the name it was computed from: the comparison helper reports equality for equal strings only")],
 }
